@@ -222,6 +222,15 @@ struct Output {
     items: Vec<String>,
     warnings: Vec<String>,
     errors: Vec<String>,
+    /// literal `match`es on strings seen in verified functions: for each arm its literal patterns (None: binding / wildcard arm)
+    matches: Vec<MatchInfo>,
+}
+
+#[derive(Serialize, Clone)]
+struct MatchInfo {
+    in_fn: String,
+    line: usize,
+    arms: Vec<Option<Vec<String>>>,
 }
 
 #[derive(Serialize, Clone)]
@@ -978,6 +987,28 @@ impl<'ast, 'p> Visit<'ast> for Ctx<'p> {
                 let mv = format!("vx_m{}", self.counter);
                 let (s, e) = br(m.span());
                 let (ss, se) = br(m.expr.span());
+                {
+                    let mut arms_info: Vec<Option<Vec<String>>> = Vec::new();
+                    for arm in &m.arms {
+                        let cases: Vec<&syn::Pat> = match &arm.pat {
+                            syn::Pat::Or(o) => o.cases.iter().collect(),
+                            other => vec![other],
+                        };
+                        let mut lits: Vec<String> = Vec::new();
+                        let mut all = true;
+                        for c in cases {
+                            if let syn::Pat::Lit(syn::ExprLit { lit: syn::Lit::Str(ls), .. }) = c {
+                                lits.push(ls.value());
+                            } else {
+                                all = false;
+                            }
+                        }
+                        arms_info.push(if all { Some(lits) } else { None });
+                    }
+                    let in_fn = self.cur_fn();
+                    let line = self.line_of(s);
+                    self.out.matches.push(MatchInfo { in_fn, line, arms: arms_info });
+                }
                 let mut parts = vec![
                     Part::Lit(format!("{{ let {mv} = ")),
                     Part::Src(ss, se),
